@@ -370,15 +370,20 @@ def pipeline_items(obs):
         pvb = seqpaths.compare(obs['p_snap'], obs['p_sig'],
                                pipe_only(obs['b_snap']), obs['b_sig'],
                                'P_vs_B')
-        if pvb and not seqpaths.compare(
+        if pvb:
+            # where the pipeline differs from the bare optimised run but
+            # agrees with the one-at-a-time run (its pending filter skipped
+            # mutations of a model that ends up unchanged) it does what the
+            # property asks for: a difference to B only counts if the same
+            # kind of difference (same table) also separates P from A
+            pva = seqpaths.compare(
                 obs['p_snap'], obs['p_sig'], pipe_only(obs['a_snap']),
-                obs['a_sig'], 'P_vs_A'):
-            # the pipeline differs from the bare optimised run but agrees
-            # with the one-at-a-time run (its pending filter skipped
-            # mutations of a model that ends up unchanged): that is what
-            # the property asks for
-            stats['pipeline_right_where_batch_differs'] = 1
-            pvb = []
+                obs['a_sig'], 'P_vs_A')
+            sep = set((it['type'], it.get('table')) for it in pva)
+            kept = [it for it in pvb if (it['type'], it.get('table')) in sep]
+            if len(kept) < len(pvb):
+                stats['pipeline_right_where_batch_differs'] = 1
+            pvb = kept
         items += pvb
     else:
         stats['pipeline_compared_with_a'] = 1
